@@ -18,8 +18,16 @@ class CallMixin:
     # ------------------------------------------------------------------ entry
     def ev_Call(self, st, n):
         f = n.func
-        if any(isinstance(a, ast.Starred) for a in n.args) or any(k.arg is None for k in n.keywords):
+        if any(isinstance(a, ast.Starred) for a in n.args[:-1]) or any(k.arg is None for k in n.keywords):
             raise Unsupported(f"*args/**kwargs call at line {n.lineno}")
+        if n.args and isinstance(n.args[-1], ast.Starred):
+            # f(a, *xs): supported for callees under contract whose last parameter stands for their *varargs tuple
+            star = n.args[-1]
+            n2 = ast.copy_location(ast.Call(func=n.func, args=list(n.args[:-1]) + [ast.copy_location(ast.Call(
+                func=ast.Name(id="__starred_tuple__", ctx=ast.Load()), args=[star.value], keywords=[]), star)], keywords=n.keywords), n)
+            self._starred_calls.add(id(n2))
+            n = n2
+            f = n.func
         if self.spec_depth and isinstance(f, ast.Name) and (f.id in SPEC_FUNCS or f.id in self.reg.specfuns):
             return self.spec_call(st, n)
         if isinstance(f, ast.Name):
@@ -29,7 +37,7 @@ class CallMixin:
                 return self.evargs(st, n, lambda s, a, kw: self.inline(s, fn, a, kw, n.lineno, closure=True))
             b = getattr(self, "bi_" + nm, None)
             if b is not None and nm not in st.env:
-                if nm == "isinstance":      # the second argument is a class expression, not a value
+                if nm in ("isinstance", "issubclass"):      # the second argument is a class expression, not a value
                     return self.evseq(st, [n.args[0]], lambda s, vs: b(s, vs, {}, n))
                 return self.evargs(st, n, lambda s, a, kw: b(s, a, kw, n))
             key = nm
@@ -122,8 +130,13 @@ class CallMixin:
             return out
         raise Unsupported(f"method {recv.ty}.{meth} (no contract) at line {lineno}")
 
+    def bi___starred_tuple__(self, st, a, kw, n):
+        return [Res(st, self.new_list(st, self.elems(st, a[0]), "tuple"))]
+
     def call_function(self, st, key, args, kw, lineno, recv_ty=None):
         if key in self.functions and (key in self.inline_keys or key not in self.reg.contracts):
+            if any(isinstance(a_, V) and a_.ty == "tuple" and getattr(a_, "src", None) == "starred" for a_ in args):
+                raise Unsupported(f"*args call of an inlined function at line {lineno}")
             fn, cls = self.functions[key]
             return self.inline(st, fn, args, kw, lineno, cls=cls)
         return self.apply_contract(st, key, args, kw, lineno)
